@@ -10,6 +10,26 @@ TRUST = ("TLC 1.8 and the TLA+ semantics; harness/absmap.py (gamma builds real o
          "alpha reads public props/paths/errors); the bounded universes stated in the evidence file")
 
 CHECKS = {
+ "C04": dict(
+    text="TLC explores the substitution machine spec/MC_Sub.tla: schemas of the container universe (level 1 + focus "
+         "set in quick, all in thorough) and DSL-reachable scalars, each substituted with its generated seed values and "
+         "every one-step edit of them (partial dicts at any depth, replaced members incl. an unconvertible tuple, extra "
+         "keys), and checks on the operational substitutor model that the result accepts a conforming value, that every "
+         "generated/accepted value carries the substituted data and that unspecified keys keep schema and optionality. "
+         "Every case is replayed on the real substitute(), fake() (four constant tapes) and validate() on probe values; "
+         "TLC validates the recorded observations with spec/Trace_Sub.tla (Prop=C04).",
+    design="7 C04", technique="TLA+ substitutor model + TLC; cases replayed on the real substitute/fake/validate; "
+                              "events trace-validated by TLC"),
+ "C05": dict(
+    text="Same machine as C04; invariant and trace clause: every probe or generated value the substituted schema "
+         "accepts is accepted by the original schema (real validate() on both, spec/Trace_Sub.tla Prop=C05).",
+    design="7 C05", technique="TLA+ refinement invariant checked with TLC; real verdict pairs trace-validated by TLC"),
+ "C12": dict(
+    text="Same machine as C04 over conforming, edited, partial and unconvertible values; invariants and trace clauses: "
+         "substitute() raises only SubstitutionError, a returned schema is satisfiable and generatable under every "
+         "constant tape, and substituting the same plain value again succeeds with an equal schema (real ==/!=).",
+    design="7 C12", technique="TLA+ substitutor model + TLC; exception types, usability and idempotence observed on "
+                              "the real code and trace-validated by TLC"),
  "C01": dict(
     text="TLC explores the generate/validate machine spec/MC_Val.tla: every scalar schema reachable by <=2 (quick) / "
          "<=3 (thorough) DSL calls plus ~1,850 container schemas (nesting <=2, all list forms, optional/relaxed "
